@@ -170,7 +170,8 @@ def _string_ops(ctx, fkey, rule, depth=0):
     f = ix.func(fkey)
     p = f.params()[0]
     out = []
-    for s in f.node.body:
+    from .util import pipeline_body
+    for s in pipeline_body(f.node.body, p):
         if isinstance(s, ast.Expr) and isinstance(s.value, ast.Constant):
             continue
         if isinstance(s, ast.Return):
